@@ -188,6 +188,8 @@ class WriteMultipleRegistersRequest(ModbusRequest):
             return self.doException(merror.IllegalValue)
         if (self.byte_count != self.count * 2):
             return self.doException(merror.IllegalValue)
+        if len(self.values) != self.count:
+            return self.doException(merror.IllegalValue)
         if not context.validate(self.function_code, self.address, self.count):
             return self.doException(merror.IllegalAddress)
 
